@@ -1,6 +1,6 @@
 #include "reject.hpp"
 #ifdef _OPENMP
-extern "C" int omp_get_num_procs(void) { return 64; }
+extern "C" int omp_get_num_procs(void) { return vf::g_fake_procs; }
 #endif
 namespace vf {
 static CaseResult run(const RunCtx &ctx, const Tape &tape, Tape &canon) {
